@@ -125,6 +125,26 @@ Proof.
   apply IH; [assumption|now apply comb_step_mono].
 Qed.
 
+Lemma comb_unknown_looser c c' : mcomb_looser c c' -> comb_unknown c = comb_unknown c'.
+Proof.
+  intros H. inversion H as [ps ps' F|t t' OT KO]; subst; [reflexivity|].
+  destruct t as [t|], t' as [t'|]; cbn in OT; try contradiction; [|reflexivity].
+  cbn [comb_unknown]. f_equal. cbn in KO.
+  destruct (is_obj t) eqn:It.
+  - now rewrite (KO eq_refl).
+  - destruct (is_obj t') eqn:It'; [|reflexivity]. exfalso.
+    destruct t' as [| | | | |qs n|]; try discriminate It'.
+    destruct (looser_inv _ _ OT) as [Hx|Hx]; [discriminate Hx|].
+    destruct t; try contradiction; try discriminate Hx; discriminate It.
+Qed.
+
+Lemma existsb_unknown_looser cs : forall cs', Forall2 mcomb_looser cs cs' ->
+  existsb comb_unknown cs = existsb comb_unknown cs'.
+Proof.
+  induction cs as [|c cs IH]; intros cs' F; inversion F; subst; cbn; [reflexivity|].
+  now rewrite (comb_unknown_looser c y), (IH l').
+Qed.
+
 (* C06 for the matrix context: a matrix whose values / rows / include entries
    are typed less precisely (any instead of a specific type, an open object
    instead of a closed one ...) gets a looser type *)
@@ -159,7 +179,9 @@ Proof.
               destruct (looser_inv _ _ Le) as [Hx|Hx]; [discriminate Hx|].
               destruct e; try contradiction; try discriminate Hx; try discriminate Ie.
            ++ rewrite (merge_obj_nonobj _ _ f If). apply looser_obj_iff. split; [constructor|exact I].
-  - pose proof (fold_comb_mono cs cs' (rows_props (mt_rows m), None) (rows_props (mt_rows m'), None) FC (conj PR I)) as [P O].
+  - rewrite (existsb_unknown_looser cs cs' FC). destruct (existsb comb_unknown cs').
+    { apply looser_obj_iff. split; [constructor|exact I]. }
+    pose proof (fold_comb_mono cs cs' (rows_props (mt_rows m), None) (rows_props (mt_rows m'), None) FC (conj PR I)) as [P O].
     destruct (fold_left comb_step cs _) as [ps mp], (fold_left comb_step cs' _) as [ps' mp']. cbn in P, O.
     apply looser_obj_iff. split; assumption.
 Qed.
@@ -175,3 +197,27 @@ Proof.
   - repeat constructor.
   - constructor.
 Qed.
+
+(* ---- an include element of unknown type ------------------------------------ *)
+(* from the repair on: the matrix is the open object without known keys - every
+   `matrix.<key>...` chain is typed any and accepted *)
+Theorem matrix_ty_unknown_element rows cs :
+  existsb comb_unknown cs = true ->
+  matrix_ty {| mt_rows := rows; mt_incl := MInclList cs |} = TObj [] (Some TAny).
+Proof. intros H. unfold matrix_ty. cbn [mt_incl]. now rewrite H. Qed.
+
+(* before it: `os: [ubuntu]` with `include: [<object {os: {x: number}}>]` types matrix.os as any
+   (string merged with an object), with `include: [<any>]` as string - so `matrix.os.x`, accepted
+   with the precise element, was reported once the element's type was unknown *)
+Lemma matrix_ty_old_unknown_element_refuted :
+  exists rows t,
+    matrix_ty_old {| mt_rows := rows; mt_incl := MInclList [MCombExpr (Some t)] |}
+      = TObj [("os"%string, TAny)] None /\
+    matrix_ty_old {| mt_rows := rows; mt_incl := MInclList [MCombExpr (Some TAny)] |}
+      = TObj [("os"%string, TStr)] (Some TAny) /\
+    matrix_ty {| mt_rows := rows; mt_incl := MInclList [MCombExpr (Some TAny)] |} = TObj [] (Some TAny).
+Proof.
+  exists [("os"%string, MRowVals [RScalar TStr])], (TObj [("os"%string, TObj [("x"%string, TNum)] None)] None).
+  repeat split; vm_compute; reflexivity.
+Qed.
+
